@@ -42,6 +42,12 @@ def cmd_check(pid, tier, quiet=False):
     mod = _module(pid)
     t0 = time.time()
     cap = getattr(mod, "CAP_S", {}).get(tier)
+    if cap is not None and tier == "quick":
+        # a capped run exits 0 with exhaustive=false: on a loaded machine a low cap hides violations,
+        # so the quick tier never gets less than 10 minutes (it needs 15-60 s on 16 idle cores)
+        cap = max(cap, 600)
+    if os.environ.get("VF_CAP_S"):
+        cap = float(os.environ["VF_CAP_S"])
     try:
         shards = mod.plan(tier, seed)
         res = par.run(mod.__name__, shards, tier, seed, cap_s=cap, workers=getattr(mod, "WORKERS", None),
